@@ -9,6 +9,8 @@ old central directory, which the appending writer will overwrite.
 Differences to `openArchive` that matter here:
 * the disk check is unconditional (`footer.diskNumber != footer.diskWithCd`, no `record_too_small`);
 * the D16 check `directory_start > cde_start → InvalidArchive`;
+* each re-hydrated record whose DECODED name no longer fits the 16-bit name length field is refused with
+  `UnsupportedArchive` (A6 repair; `AppendNameFits` is the condition under which that does not happen);
 * the result is a writer state (`WState.init` with the re-hydrated records — each passed through
   `appendRecord`, which drops inherited ZIP64 extra records (D20) —, the old comment and
   `writing_raw = true`), and the device is left positioned at `directory_start`.
@@ -17,18 +19,30 @@ Differences to `openArchive` that matter here:
 namespace ZipVerif.Model
 open ZipVerif ZipVerif.Spec.Zip
 
+/-- The name `new_append` would write back for `e` — the reader's DECODED name: a CP437 name transcoded to
+UTF-8, ill-formed flagged UTF-8 replaced by U+FFFD — still fits the 16-bit name length field.  Otherwise
+`new_append` refuses the archive (`newAppend_refuses_long_name`).  Decidable; every entry whose name
+decodes to itself (`AppendClean`: ASCII or flagged well-formed UTF-8) and `Fits` has it. -/
+def AppendNameFits (e : Entry) : Prop :=
+  (Text.decodeToUtf8 (e.flagsOut &&& 0x0800 != 0) e.name).length ≤ 65535
+
+instance (e : Entry) : Decidable (AppendNameFits e) := by unfold AppendNameFits; infer_instance
+
 /-- the `let rec` loop of `newAppend` on the central directory of a layout: the reader's views, each
 passed through `appendRecord` (the D20 repair: inherited ZIP64 extra records are dropped) -/
 theorem parses_appendLoopZ (ao : Nat) : ∀ (es : List Entry) (loc chs : Nat),
-    (∀ e ∈ es, e.Fits) → ReadableZFrom es loc → loc + (localsBytes es).length + ao < 2 ^ 64 →
+    (∀ e ∈ es, e.Fits) → (∀ e ∈ es, AppendNameFits e) → ReadableZFrom es loc →
+    loc + (localsBytes es).length + ao < 2 ^ 64 →
     Parses (newAppend.loop ao es.length) chs (centralBytes es (localOffsets es loc))
       ((viewList ao es loc chs).map appendRecord) := by
   intro es
   induction es with
-  | nil => intro loc chs _ _ _; exact Parses.pure _
+  | nil => intro loc chs _ _ _ _; exact Parses.pure _
   | cons e es ih =>
-    intro loc chs hall hz hb
+    intro loc chs hall hnm hz hb
     have he := hall e (List.mem_cons_self)
+    have hne : ¬ (viewEntry e (loc + e.gapBefore.length) ao chs).fileName.length > 65535 :=
+      Nat.not_lt.mpr (hnm e List.mem_cons_self)
     obtain ⟨⟨hm, hx⟩, hzr⟩ := hz
     rw [localsBytes_cons, List.length_append] at hb
     have hlb : e.gapBefore.length ≤ e.localBytes.length := by
@@ -38,8 +52,55 @@ theorem parses_appendLoopZ (ao : Nat) : ∀ (es : List Entry) (loc chs : Nat),
         centralBytes es (localOffsets es (loc + e.localBytes.length))) _
     unfold newAppend.loop
     refine Parses.bind (parses_centralHeaderZ e _ ao chs he hx hm (by omega)) ?_
-    refine Parses.bind_last (ih _ _ (fun x hx => hall x (List.mem_cons_of_mem _ hx)) hzr (by omega)) ?_
+    rw [if_neg hne]
+    refine Parses.bind_last (ih _ _ (fun x hx => hall x (List.mem_cons_of_mem _ hx))
+      (fun x hx => hnm x (List.mem_cons_of_mem _ hx)) hzr (by omega)) ?_
     exact Parses.pure _
+
+/-- **The loop refuses** (A6 repair): as soon as it has read the record of an entry whose decoded name
+does not fit the name length field it stops with `UnsupportedArchive`, before the next record is read. -/
+theorem runs_appendLoop_refuses (ao : Nat) : ∀ (es : List Entry) (loc chs : Nat),
+    (∀ e ∈ es, e.Fits) → (∃ e ∈ es, ¬ AppendNameFits e) → ReadableZFrom es loc →
+    loc + (localsBytes es).length + ao < 2 ^ 64 →
+    ∀ B rest, B.drop chs = centralBytes es (localOffsets es loc) ++ rest →
+    ∃ q, Runs (newAppend.loop ao es.length) B chs (.err .unsupportedArchive) q := by
+  intro es
+  induction es with
+  | nil => intro loc chs _ ⟨e, he, _⟩; cases he
+  | cons e es ih =>
+    intro loc chs hall hbad hz hb B rest hB
+    have he := hall e (List.mem_cons_self)
+    obtain ⟨⟨hm, hx⟩, hzr⟩ := hz
+    rw [localsBytes_cons, List.length_append] at hb
+    have hlb : e.gapBefore.length ≤ e.localBytes.length := by
+      simp only [Entry.localBytes, List.length_append]; omega
+    have hB' : B.drop chs = centralRecord e (UInt64.ofNat (loc + e.gapBefore.length)) ++
+        (centralBytes es (localOffsets es (loc + e.localBytes.length)) ++ rest) := by
+      rw [hB]
+      show (centralRecord e (UInt64.ofNat (loc + e.gapBefore.length)) ++
+        centralBytes es (localOffsets es (loc + e.localBytes.length))) ++ rest = _
+      rw [List.append_assoc]
+    have hhdr := (parses_centralHeaderZ e _ ao chs he hx hm (by omega)).toRuns hB'
+    show ∃ q, Runs (newAppend.loop ao (es.length + 1)) B chs _ q
+    unfold newAppend.loop
+    by_cases hn : AppendNameFits e
+    · have hne : ¬ (viewEntry e (loc + e.gapBefore.length) ao chs).fileName.length > 65535 :=
+        Nat.not_lt.mpr hn
+      obtain ⟨x, hx', hxb⟩ := hbad
+      have hx'' : x ∈ es := by
+        rcases List.mem_cons.mp hx' with h | h
+        · exact absurd (h ▸ hn) hxb
+        · exact h
+      obtain ⟨q, hq⟩ := ih _ _ (fun y hy => hall y (List.mem_cons_of_mem _ hy)) ⟨x, hx'', hxb⟩ hzr (by omega)
+        B rest (drop_past hB')
+      refine ⟨q, Runs.bind hhdr ?_⟩
+      rw [if_neg hne]
+      exact Runs.bind_err hq
+    · have hgt : (viewEntry e (loc + e.gapBefore.length) ao chs).fileName.length > 65535 :=
+        Nat.lt_of_not_le hn
+      refine ⟨chs + (centralRecord e (UInt64.ofNat (loc + e.gapBefore.length))).length, Runs.bind hhdr ?_⟩
+      rw [if_pos hgt]
+      exact Runs.throw _
 
 /-- The writer state `new_append` builds for the layout `l`. -/
 def appendStateOf (l : Layout) : WState :=
@@ -51,9 +112,10 @@ abbrev AppendLoopRuns (l : Layout) : Prop :=
     (.ok ((viewOf l).map appendRecord))
     (l.cdStart + (centralBytes l.entries (localOffsets l.entries 0)).length)
 
-theorem runs_appendLoopZ (l : Layout) (hF : l.Fits) (hR : l.ReadableZ) : AppendLoopRuns l := by
+theorem runs_appendLoopZ (l : Layout) (hF : l.Fits) (hN : ∀ e ∈ l.entries, AppendNameFits e)
+    (hR : l.ReadableZ) : AppendLoopRuns l := by
   have hb := fits_bounds l hF
-  exact (parses_appendLoopZ l.pre.length l.entries 0 l.cdStart hF.1 hR (by omega)).toRuns (drop_cdStart l)
+  exact (parses_appendLoopZ l.pre.length l.entries 0 l.cdStart hF.1 hN hR (by omega)).toRuns (drop_cdStart l)
 
 /-- The tail of `newAppend` once the end record and the directory counts are known. -/
 theorem runs_newAppend_tail_of_loop (l : Layout) (hF : l.Fits)
@@ -79,26 +141,61 @@ theorem runs_newAppend_tail_of_loop (l : Layout) (hF : l.Fits)
   refine Runs.bind (Runs.attempt_ok (Runs.seek_start l.cdStart)) ?_
   exact Runs.pure _
 
-/-- the run of `new_append`'s loop on `build l`, from `Readable` -/
-theorem runs_appendLoop (l : Layout) (hF : l.Fits) (hR : l.Readable) : AppendLoopRuns l :=
-  runs_appendLoopZ l hF (readable_imp_readableZ l hR)
+/-- The tail of `newAppend` when the central-directory loop ends in an error: that error is `new_append`'s
+result (nothing was written: `Runs` keeps the buffer). -/
+theorem runs_newAppend_tail_of_loop_err (l : Layout) (hF : l.Fits) {e : ZErr} {q : Nat}
+    (hloop : Runs (newAppend.loop l.pre.length l.entries.length) (build l) l.cdStart (.err e) q)
+    (p1 q1 : Nat)
+    (hfind : Runs findAndParseEocd (build l) p1 (.ok (eocdOf l, l.eocdPos))
+      (l.eocdPos + 22 + l.comment.length))
+    (hcounts : Runs (getDirectoryCounts (eocdOf l) l.eocdPos) (build l)
+      (l.eocdPos + 22 + l.comment.length) (.ok (l.pre.length, l.cdStart, l.entries.length)) q1) :
+    Runs newAppend (build l) p1 (.err e) q := by
+  have hb := fits_bounds l hF
+  have hle : ¬ l.cdStart > l.eocdPos := by
+    simp only [Layout.eocdPos]; omega
+  unfold newAppend
+  refine Runs.bind hfind ?_
+  dsimp only
+  rw [if_neg (by simp [eocdOf])]
+  refine Runs.bind hcounts ?_
+  dsimp only
+  rw [if_neg hle]
+  refine Runs.bind (Runs.attempt_ok (Runs.seek_start _)) ?_
+  dsimp only
+  exact Runs.bind_err hloop
 
-theorem runs_newAppend_tail (l : Layout) (hF : l.Fits) (hR : l.Readable) (p1 q1 : Nat)
+/-- what the rest of `newAppend` does once the end record and the directory counts are known, as a
+parameter of the two end-record analyses below -/
+abbrev AppendTail (l : Layout) (o : Out WState) (q : Nat) : Prop :=
+  ∀ p1 q1 : Nat,
+    Runs findAndParseEocd (build l) p1 (.ok (eocdOf l, l.eocdPos)) (l.eocdPos + 22 + l.comment.length) →
+    Runs (getDirectoryCounts (eocdOf l) l.eocdPos) (build l)
+      (l.eocdPos + 22 + l.comment.length) (.ok (l.pre.length, l.cdStart, l.entries.length)) q1 →
+    Runs newAppend (build l) p1 o q
+
+/-- the run of `new_append`'s loop on `build l`, from `Readable` -/
+theorem runs_appendLoop (l : Layout) (hF : l.Fits) (hN : ∀ e ∈ l.entries, AppendNameFits e)
+    (hR : l.Readable) : AppendLoopRuns l :=
+  runs_appendLoopZ l hF hN (readable_imp_readableZ l hR)
+
+theorem runs_newAppend_tail (l : Layout) (hF : l.Fits) (hN : ∀ e ∈ l.entries, AppendNameFits e)
+    (hR : l.Readable) (p1 q1 : Nat)
     (hfind : Runs findAndParseEocd (build l) p1 (.ok (eocdOf l, l.eocdPos))
       (l.eocdPos + 22 + l.comment.length))
     (hcounts : Runs (getDirectoryCounts (eocdOf l) l.eocdPos) (build l)
       (l.eocdPos + 22 + l.comment.length) (.ok (l.pre.length, l.cdStart, l.entries.length)) q1) :
     Runs newAppend (build l) p1 (.ok (appendStateOf l)) l.cdStart :=
-  runs_newAppend_tail_of_loop l hF (runs_appendLoop l hF hR) p1 q1 hfind hcounts
+  runs_newAppend_tail_of_loop l hF (runs_appendLoop l hF hN hR) p1 q1 hfind hcounts
 
 /-- **`new_append` on a layout without ZIP64 end records** (the central-directory loop's run given). -/
-theorem append_plain_of_loop (l : Layout) (hF : l.Fits)
-    (hloop : AppendLoopRuns l) (h64 : l.needs64 = false)
+theorem append_plain_of_tail (l : Layout) (hF : l.Fits) {o : Out WState} {q : Nat}
+    (htail : AppendTail l o q) (h64 : l.needs64 = false)
     (hwin : l.comment.length + l.trailing.length ≤ 65535)
     (hnfE : ∀ k, l.eocdPos < k → k + 22 ≤ (build l).length → u32At (build l) k ≠ some sigEocd)
     (hnfL : 42 + l.comment.length ≤ (build l).length →
       u32At (build l) ((build l).length - 42 - l.comment.length) ≠ some sigLocator) (p0 : Nat) :
-    Runs newAppend (build l) p0 (.ok (appendStateOf l)) l.cdStart := by
+    Runs newAppend (build l) p0 o q := by
   obtain ⟨he, hsz, hoff, hcnt, hpos⟩ := plain_facts l h64
   have hlen := build_length l
   have hb := fits_bounds l hF
@@ -115,25 +212,35 @@ theorem append_plain_of_loop (l : Layout) (hF : l.Fits)
     have e1 : l.pre.length + l.cdOffset + l.cdSize - l.cdSize - l.cdOffset = l.pre.length := by omega
     rw [e1, Nat.add_comm l.cdOffset]
     rfl
-  exact runs_newAppend_tail_of_loop l hF hloop p0 q1 hfind hq1'
+  exact htail p0 q1 hfind hq1'
 
-/-- **`new_append` on a layout without ZIP64 end records.** -/
-theorem append_plain (l : Layout) (hF : l.Fits) (hR : l.Readable) (h64 : l.needs64 = false)
+theorem append_plain_of_loop (l : Layout) (hF : l.Fits)
+    (hloop : AppendLoopRuns l) (h64 : l.needs64 = false)
     (hwin : l.comment.length + l.trailing.length ≤ 65535)
     (hnfE : ∀ k, l.eocdPos < k → k + 22 ≤ (build l).length → u32At (build l) k ≠ some sigEocd)
     (hnfL : 42 + l.comment.length ≤ (build l).length →
       u32At (build l) ((build l).length - 42 - l.comment.length) ≠ some sigLocator) (p0 : Nat) :
     Runs newAppend (build l) p0 (.ok (appendStateOf l)) l.cdStart :=
-  append_plain_of_loop l hF (runs_appendLoop l hF hR) h64 hwin hnfE hnfL p0
+  append_plain_of_tail l hF (runs_newAppend_tail_of_loop l hF hloop) h64 hwin hnfE hnfL p0
+
+/-- **`new_append` on a layout without ZIP64 end records.** -/
+theorem append_plain (l : Layout) (hF : l.Fits) (hN : ∀ e ∈ l.entries, AppendNameFits e)
+    (hR : l.Readable) (h64 : l.needs64 = false)
+    (hwin : l.comment.length + l.trailing.length ≤ 65535)
+    (hnfE : ∀ k, l.eocdPos < k → k + 22 ≤ (build l).length → u32At (build l) k ≠ some sigEocd)
+    (hnfL : 42 + l.comment.length ≤ (build l).length →
+      u32At (build l) ((build l).length - 42 - l.comment.length) ≠ some sigLocator) (p0 : Nat) :
+    Runs newAppend (build l) p0 (.ok (appendStateOf l)) l.cdStart :=
+  append_plain_of_loop l hF (runs_appendLoop l hF hN hR) h64 hwin hnfE hnfL p0
 
 /-- **`new_append` on a layout with ZIP64 end record + locator** (the loop's run given). -/
-theorem append_z64_of_loop (l : Layout) (hF : l.Fits)
-    (hloop : AppendLoopRuns l) (h64 : l.needs64 = true)
+theorem append_z64_of_tail (l : Layout) (hF : l.Fits) {o : Out WState} {q : Nat}
+    (htail : AppendTail l o q) (h64 : l.needs64 = true)
     (ht : l.trailing = [])
     (hnfE : ∀ k, l.eocdPos < k → k + 22 ≤ (build l).length → u32At (build l) k ≠ some sigEocd)
     (hnf64 : ∀ k, l.cdOffset + l.cdSize ≤ k → k < l.end64Pos → u32At (build l) k ≠ some sigEocd64)
     (p0 : Nat) :
-    Runs newAppend (build l) p0 (.ok (appendStateOf l)) l.cdStart := by
+    Runs newAppend (build l) p0 o q := by
   have hlen := build_length l
   have hb := fits_bounds l hF
   have hc := hF.2.1
@@ -182,23 +289,33 @@ theorem append_z64_of_loop (l : Layout) (hF : l.Fits)
     have e1 : l.end64Pos - (l.cdOffset + l.cdSize) = l.pre.length := by omega
     rw [e1, Nat.add_comm l.cdOffset]
     rfl
-  exact runs_newAppend_tail_of_loop l hF hloop p0 _ hfind hq1'
+  exact htail p0 _ hfind hq1'
 
-/-- **`new_append` on a layout with ZIP64 end record + locator** (nothing after the comment). -/
-theorem append_z64 (l : Layout) (hF : l.Fits) (hR : l.Readable) (h64 : l.needs64 = true)
+theorem append_z64_of_loop (l : Layout) (hF : l.Fits)
+    (hloop : AppendLoopRuns l) (h64 : l.needs64 = true)
     (ht : l.trailing = [])
     (hnfE : ∀ k, l.eocdPos < k → k + 22 ≤ (build l).length → u32At (build l) k ≠ some sigEocd)
     (hnf64 : ∀ k, l.cdOffset + l.cdSize ≤ k → k < l.end64Pos → u32At (build l) k ≠ some sigEocd64)
     (p0 : Nat) :
     Runs newAppend (build l) p0 (.ok (appendStateOf l)) l.cdStart :=
-  append_z64_of_loop l hF (runs_appendLoop l hF hR) h64 ht hnfE hnf64 p0
+  append_z64_of_tail l hF (runs_newAppend_tail_of_loop l hF hloop) h64 ht hnfE hnf64 p0
+
+/-- **`new_append` on a layout with ZIP64 end record + locator** (nothing after the comment). -/
+theorem append_z64 (l : Layout) (hF : l.Fits) (hN : ∀ e ∈ l.entries, AppendNameFits e)
+    (hR : l.Readable) (h64 : l.needs64 = true)
+    (ht : l.trailing = [])
+    (hnfE : ∀ k, l.eocdPos < k → k + 22 ≤ (build l).length → u32At (build l) k ≠ some sigEocd)
+    (hnf64 : ∀ k, l.cdOffset + l.cdSize ≤ k → k < l.end64Pos → u32At (build l) k ≠ some sigEocd64)
+    (p0 : Nat) :
+    Runs newAppend (build l) p0 (.ok (appendStateOf l)) l.cdStart :=
+  append_z64_of_loop l hF (runs_appendLoop l hF hN hR) h64 ht hnfE hnf64 p0
 
 /-- `newAppend_on_layout` with the run of the central-directory loop as a hypothesis. -/
-theorem newAppend_on_layout_of_loop (l : Layout) (hF : l.Fits)
-    (hloop : AppendLoopRuns l) (hS : NoFalseSig l)
+theorem newAppend_on_layout_of_tail (l : Layout) (hF : l.Fits) {o : Out WState} {q : Nat}
+    (htail : AppendTail l o q) (hS : NoFalseSig l)
     (ht : l.trailing = [] ∨ l.needs64 = false) :
-    ∃ d', newAppend.runPure (Dev.ofBytes (build l)) = (.ok (appendStateOf l), d') ∧
-      d'.buf = build l ∧ d'.pos = l.cdStart := by
+    ∃ d', newAppend.runPure (Dev.ofBytes (build l)) = (o, d') ∧
+      d'.buf = build l ∧ d'.pos = q := by
   obtain ⟨hwin, hi, hii, hiii⟩ := hS
   have hnfE : ∀ k, l.eocdPos < k → k + 22 ≤ (build l).length →
       u32At (build l) k ≠ some sigEocd := by
@@ -209,7 +326,7 @@ theorem newAppend_on_layout_of_loop (l : Layout) (hF : l.Fits)
     rwa [e] at this
   cases h64 : l.needs64 with
   | false =>
-    exact append_plain_of_loop l hF hloop h64 hwin hnfE (hii h64) 0 (Dev.ofBytes (build l)) rfl rfl
+    exact append_plain_of_tail l hF htail h64 hwin hnfE (hii h64) 0 (Dev.ofBytes (build l)) rfl rfl
   | true =>
     have htr : l.trailing = [] := by
       rcases ht with h | h
@@ -223,24 +340,49 @@ theorem newAppend_on_layout_of_loop (l : Layout) (hF : l.Fits)
       have := hiii h64 (k - (l.cdOffset + l.cdSize)) (by omega)
       have e : l.cdOffset + l.cdSize + (k - (l.cdOffset + l.cdSize)) = k := by omega
       rwa [e] at this
-    exact append_z64_of_loop l hF hloop h64 htr hnfE hnf64 0 (Dev.ofBytes (build l)) rfl rfl
+    exact append_z64_of_tail l hF htail h64 htr hnfE hnf64 0 (Dev.ofBytes (build l)) rfl rfl
+
+theorem newAppend_on_layout_of_loop (l : Layout) (hF : l.Fits)
+    (hloop : AppendLoopRuns l) (hS : NoFalseSig l)
+    (ht : l.trailing = [] ∨ l.needs64 = false) :
+    ∃ d', newAppend.runPure (Dev.ofBytes (build l)) = (.ok (appendStateOf l), d') ∧
+      d'.buf = build l ∧ d'.pos = l.cdStart :=
+  newAppend_on_layout_of_tail l hF (runs_newAppend_tail_of_loop l hF hloop) hS ht
 
 /-- **`newAppend_on_layout`** — `ZipWriter::new_append` on the bytes of a well-formed layout returns the
 writer state whose records are the reader's views of the central directory, whose comment is the old
 archive comment and whose `writing_raw` flag is set; the sink still holds the archive and is positioned
-on the first byte of the OLD central directory (which the next write overwrites). -/
-theorem newAppend_on_layout (l : Layout) (hF : l.Fits) (hR : l.Readable) (hS : NoFalseSig l)
+on the first byte of the OLD central directory (which the next write overwrites).  `hN`: every decoded
+name can be written back (since the A6 repair `new_append` refuses the archive otherwise). -/
+theorem newAppend_on_layout (l : Layout) (hF : l.Fits) (hN : ∀ e ∈ l.entries, AppendNameFits e)
+    (hR : l.Readable) (hS : NoFalseSig l)
     (ht : l.trailing = [] ∨ l.needs64 = false) :
     ∃ d', newAppend.runPure (Dev.ofBytes (build l)) = (.ok (appendStateOf l), d') ∧
       d'.buf = build l ∧ d'.pos = l.cdStart :=
-  newAppend_on_layout_of_loop l hF (runs_appendLoop l hF hR) hS ht
+  newAppend_on_layout_of_loop l hF (runs_appendLoop l hF hN hR) hS ht
 
 /-- `newAppend_on_layout` under `ReadableZ` (further ZIP64 records in the foreign extra data). -/
-theorem newAppend_on_layoutZ (l : Layout) (hF : l.Fits) (hR : l.ReadableZ) (hS : NoFalseSig l)
+theorem newAppend_on_layoutZ (l : Layout) (hF : l.Fits) (hN : ∀ e ∈ l.entries, AppendNameFits e)
+    (hR : l.ReadableZ) (hS : NoFalseSig l)
     (ht : l.trailing = [] ∨ l.needs64 = false) :
     ∃ d', newAppend.runPure (Dev.ofBytes (build l)) = (.ok (appendStateOf l), d') ∧
       d'.buf = build l ∧ d'.pos = l.cdStart :=
-  newAppend_on_layout_of_loop l hF (runs_appendLoopZ l hF hR) hS ht
+  newAppend_on_layout_of_loop l hF (runs_appendLoopZ l hF hN hR) hS ht
+
+/-- **`newAppend_refuses_long_name`** (A6 repair) — a layout with an entry whose DECODED name (CP437
+transcoded to UTF-8, ill-formed UTF-8 replaced) needs more than 65535 bytes: `new_append` returns
+`UnsupportedArchive` and the sink still holds the archive, byte for byte.  (Before the repair it returned a
+writer whose `finish()` wrote the name length modulo 65536 and reported success.) -/
+theorem newAppend_refuses_long_name (l : Layout) (hF : l.Fits) (hR : l.ReadableZ) (hS : NoFalseSig l)
+    (ht : l.trailing = [] ∨ l.needs64 = false) (hbad : ∃ e ∈ l.entries, ¬ AppendNameFits e) :
+    ∃ d', newAppend.runPure (Dev.ofBytes (build l)) = (.err .unsupportedArchive, d') ∧
+      d'.buf = build l := by
+  have hb := fits_bounds l hF
+  obtain ⟨q, hq⟩ := runs_appendLoop_refuses l.pre.length l.entries 0 l.cdStart hF.1 hbad hR (by omega)
+    (build l) _ (drop_cdStart l)
+  obtain ⟨d', h1, h2, _⟩ := newAppend_on_layout_of_tail l hF
+    (runs_newAppend_tail_of_loop_err l hF hq) hS ht
+  exact ⟨d', h1, h2⟩
 
 /-- The live part of the sink after `new_append`: everything in front of the old central directory. -/
 theorem take_cdStart (l : Layout) :
